@@ -45,6 +45,10 @@ macro_rules! built_or_return {
             }
             Built::Panicked(p) => {
                 if $mode == 19 {
+                    if p.class == vengine::PanicClass::Ub && $ctx.ubonly && p.origin != vengine::PanicOrigin::Dependency {
+                        // C20 (UB-only mode): arithmetic that only release builds would let pass
+                        return Err(Fail::new(p.signature(), format!("{}: {}", $what, p.render())));
+                    }
                     $ctx.label(if p.class == vengine::PanicClass::Ub { "ctor_panicked_ub_class" } else { "ctor_panicked" });
                     return Ok(());
                 } else if p.origin == vengine::PanicOrigin::Harness {
